@@ -6,6 +6,7 @@ import (
 	"crypto/x509"
 	"bytes"
 	"compress/flate"
+	"io"
 	"github.com/beevik/etree"
 	"github.com/crewjam/saml/xmlenc"
 	dsig "github.com/russellhaering/goxmldsig"
@@ -122,7 +123,19 @@ func verifResponseElement(d *verifDoc) *etree.Element {
 			a.Signature = verifSignatureOf(a.Element(), d.Assertions[i].Sign, d.Assertions[i].KeyInfo)
 		}
 		if d.Assertions[i].Encrypt != 0 {
-			children = append(children, verifEncryptedAssertion(a.Element(), d.Assertions[i].Encrypt))
+			enc := verifEncryptedAssertion(a.Element(), d.Assertions[i].Encrypt)
+			if rm := d.Assertions[i].Retrieval; rm != 0 {
+				data := enc.ChildElements()[0]
+				ki := data.FindElement("./KeyInfo")
+				if ki == nil {
+					ki = data.CreateElement("ds:KeyInfo")
+					ki.CreateAttr("xmlns:ds", "http://www.w3.org/2000/09/xmldsig#")
+				}
+				m := ki.CreateElement("ds:RetrievalMethod")
+				m.CreateAttr("Type", "http://www.w3.org/2001/04/xmlenc#EncryptedKey")
+				m.CreateAttr("URI", verifRetrievalURIs[rm-1])
+			}
+			children = append(children, enc)
 		} else {
 			children = append(children, a.Element())
 		}
@@ -158,6 +171,22 @@ func verifMaterialiseLogout(lr *LogoutResponse, sign int, rootless bool) []byte 
 		panic(err)
 	}
 	return b
+}
+
+func verifInflateSource(size int) io.Reader {
+	return bytes.NewReader(verifDeflate(make([]byte, size)))
+}
+
+func verifReadMany(r io.Reader, bufLen int, reads int) int {
+	p := make([]byte, bufLen)
+	total := 0
+	for {
+		n, err := r.Read(p)
+		total += n
+		if err != nil {
+			return total
+		}
+	}
 }
 
 func verifDeflate(b []byte) []byte {
